@@ -130,7 +130,7 @@ class Check:
         self.level = 'proof'
         self.extract_report = None
         self.log_lines = []
-        self.findings = [f for f in load_known_findings().get('findings', []) if f.get('property') == prop]
+        self.findings = [f for f in load_known_findings().get('findings', []) if f.get('property') == prop or prop in f.get('properties', [])]
         os.makedirs(BUILD, exist_ok=True)
         os.makedirs(REPLAYS, exist_ok=True)
 
